@@ -180,7 +180,20 @@ func (r *nodeRun) answerObserved(c *cluster, n *vnode) int {
 				r.mon(fmt.Sprintf("C15 posts_only_pending_equal: altered result (%s) of a %s operation was accepted / posted", mu.name, op.Type))
 			}
 		}
-		// the genuine result
+		// the genuine result; every other time with the fields of its result messages that the NODE has to set (sender,
+		// signature) filled in by somebody else: identifier, type and payload are unchanged, so it is accepted, and what
+		// reaches the board must still be attributed to the node and signed with its key
+		r.prefillTurn++
+		if r.prefillTurn%2 == 0 && len(res.ResultMsgs) > 0 && len(c.nodes) > 1 {
+			other := c.nodes[(n.idx+1)%len(c.nodes)]
+			msgs := append([]storage.Message(nil), res.ResultMsgs...)
+			for i := range msgs {
+				msgs[i].SenderAddr = other.name
+				msgs[i].Signature = ed25519.Sign(other.kp.Priv, msgs[i].Data)
+			}
+			res.ResultMsgs = msgs
+			r.st.PrefilledResults++
+		}
 		before := len(c.boardMessages())
 		oc, _, _ := r.submit(c, n, res, "genuine")
 		if oc == "ok" {
